@@ -54,6 +54,10 @@ func c13fixedTables(which int) (n int, lv, vol, ar, mn, mx data.ND1Float64) {
 	if which == 2 {
 		// a small pool behind a large spillway: spill capacity per step exceeds the pool volume
 		L, V, A, R0, R1 = []float64{0, 2}, []float64{0, 1000}, []float64{0, 500}, []float64{0, 10}, []float64{0, 20}
+	} else if which == 3 {
+		// levels against an elevation datum and a flat bottom: the first level and area entries are
+		// NOT zero, so an empty storage still has a level and a water surface
+		L, V, A, R0, R1 = []float64{100, 120}, []float64{0, 2000000}, []float64{50000, 300000}, []float64{0, 2}, []float64{0, 40}
 	} else if which == 0 {
 		L, V, A, R0, R1 = []float64{0, 20}, []float64{0, 2000000}, []float64{0, 300000}, []float64{0, 2}, []float64{0, 40}
 	} else {
@@ -89,6 +93,12 @@ func c13storage(which int, balanceOnly bool) {
 	vsym.Assume(v0 >= 0 && v0 <= 4000000)
 	if which == 2 {
 		vsym.Assume(v0 <= 2000)
+	}
+	if which == 3 {
+		// no evaporation in this harness: net evaporation from an empty flat-bottomed storage
+		// crashes the model (known finding C13-evaporation-from-empty-flat-bottom-panics, shown by
+		// H_C13_known_empty_evaporation); everything else about such tables is checked here
+		vsym.Assume(pet == 0)
 	}
 	dt := 86400.0
 	volTS, outTS, rainV, evapV := c13one(0), c13one(0), c13one(0), c13one(0)
@@ -155,7 +165,28 @@ func H_C13_storage_3pt() { c13storage(1, false) }
 //vsym:prop=C13 tier=quick ints=int floats=real timeout=60 cut=1 unwind=12 maxruns=400
 func H_C13_storage_smallpool() { c13storage(2, false) }
 
+// H_C13_storage_datum: fixed 2-point tables whose level and area do not start at zero (elevation
+// datum 100 m, flat bottom of 5 ha): level/area of an EMPTY storage are the first table entries,
+// and rain on the empty bed is collected.
+//vsym:prop=C13 tier=quick ints=int floats=real timeout=60 cut=1 unwind=12 maxruns=400
+func H_C13_storage_datum() { c13storage(3, false) }
+
 // H_C13_balance: water balance with the reported rainfall/evaporation volumes, tables abstracted
 // to uninterpreted functions (so it holds for ANY table), sub-stepping loops cut after 2 iterations.
 //vsym:prop=C13 tier=quick ints=int floats=real timeout=120 cut=2 unwind=12 maxruns=400
 func H_C13_balance() { c13storage(1, true) }
+
+// H_C13_known_empty_evaporation: the concrete scenario of the known finding
+// C13-evaporation-from-empty-flat-bottom-panics: an EMPTY storage whose area table does not start
+// at zero (flat bottom, 5 ha), no inflow, no rain, 5 mm of PET.  Evaporation is computed from the
+// table area although there is no water; the sub-step is halved down to its minimum and the model
+// panics ("testVol < 0.0 and subtimestep <= MIN_TIMESTEP_SECONDS") instead of staying empty.
+//vsym:prop=C13 tier=quick ints=int floats=real timeout=60 unwind=200 maxruns=50
+func H_C13_known_empty_evaporation() {
+	n, lv, vol, ar, mn, mx := c13fixedTables(3)
+	volTS, outTS, rainV, evapV := c13one(0), c13one(0), c13one(0), c13one(0)
+	vsym.Reach("about-to-run")
+	v1, _, _ := storageWaterBalance(c13one(0), c13one(5), c13one(0), c13one(0), c13one(0), c13one(0),
+		0, 0, 0, 86400, n, lv, vol, ar, mn, mx, volTS, outTS, rainV, evapV)
+	vsym.Assert(v1 >= 0, "volume-nonnegative")
+}
